@@ -12,77 +12,129 @@
 //   mpsc::Sender<T>    delivers in order; blocking_send never fails while the receiver lives.
 //   Client             the bitcoind RPC client: not reached by the functions under contract.
 #![allow(dead_code)]
-use std::{borrow::Borrow, cell::RefCell, marker::PhantomData};
+use std::{borrow::Borrow, marker::PhantomData};
 
-pub trait Slot: 'static {
-  type Owned: Clone + PartialEq;
-  type SelfType<'a>;
-  fn own<'a>(x: &Self::SelfType<'a>) -> Self::Owned;
-  fn view<'a>(o: &'a Self::Owned) -> Self::SelfType<'a>;
+pub trait Slot {
+  type Owned: Clone + PartialEq + 'static;
+  type SelfType<'a>
+  where
+    Self: 'a;
+  fn own<'a>(x: &Self::SelfType<'a>) -> Self::Owned
+  where
+    Self: 'a;
+  fn view<'a>(o: &'a Self::Owned) -> Self::SelfType<'a>
+  where
+    Self: 'a;
 }
 
 macro_rules! copy_slot {
   ($($t:ty),* $(,)?) => {$(
     impl $crate::env::Slot for $t {
       type Owned = $t;
-      type SelfType<'a> = $t;
-      fn own<'a>(x: &$t) -> $t { *x }
-      fn view<'a>(o: &'a $t) -> $t { *o }
+      type SelfType<'a> = $t where Self: 'a;
+      fn own<'a>(x: &$t) -> $t where Self: 'a { *x }
+      fn view<'a>(o: &'a $t) -> $t where Self: 'a { *o }
     }
   )*};
 }
 pub(crate) use copy_slot;
 copy_slot!(u32, u64, u128);
 
-impl<const N: usize> Slot for &'static [u8; N] {
+impl<'x, const N: usize> Slot for &'x [u8; N] {
   type Owned = [u8; N];
-  type SelfType<'a> = &'a [u8; N];
-  fn own<'a>(x: &&'a [u8; N]) -> [u8; N] {
+  type SelfType<'a> = &'a [u8; N] where Self: 'a;
+  fn own<'a>(x: &&'a [u8; N]) -> [u8; N]
+  where
+    Self: 'a,
+  {
     **x
   }
-  fn view<'a>(o: &'a [u8; N]) -> &'a [u8; N] {
+  fn view<'a>(o: &'a [u8; N]) -> &'a [u8; N]
+  where
+    Self: 'a,
+  {
     o
   }
 }
 
-impl Slot for &'static [u8] {
+impl<'x> Slot for &'x [u8] {
   type Owned = Vec<u8>;
-  type SelfType<'a> = &'a [u8];
-  fn own<'a>(x: &&'a [u8]) -> Vec<u8> {
+  type SelfType<'a> = &'a [u8] where Self: 'a;
+  fn own<'a>(x: &&'a [u8]) -> Vec<u8>
+  where
+    Self: 'a,
+  {
     x.to_vec()
   }
-  fn view<'a>(o: &'a Vec<u8>) -> &'a [u8] {
+  fn view<'a>(o: &'a Vec<u8>) -> &'a [u8]
+  where
+    Self: 'a,
+  {
     o.as_slice()
   }
 }
 
-pub struct AccessGuard<V: Slot + 'static> {
-  value: V::Owned,
-}
+/// error type of the shim table (never produced).  Not redb::StorageError: Kani 0.68 aborts with an
+/// internal compiler error on `Result<Option<AccessGuard<..>>, redb::StorageError>` (discriminant
+/// read of a doubly niche-encoded enum).
+#[derive(Debug)]
+pub struct TableError;
 
-impl<V: Slot + 'static> AccessGuard<V> {
-  pub fn value(&self) -> V::SelfType<'_> {
-    V::view(&self.value)
+impl std::fmt::Display for TableError {
+  fn fmt(&self, f: &mut std::fmt::Formatter) -> std::fmt::Result {
+    write!(f, "storage error")
   }
 }
 
-/// SHIM for redb::Table: a finite map held as an association list (harnesses preload 0..2 entries)
-pub struct Table<'tx, K: Slot + 'static, V: Slot + 'static> {
-  pub entries: Vec<(K::Owned, V::Owned)>,
+impl std::error::Error for TableError {}
+
+/// The value sits in a MaybeUninit (always initialised) so that rustc cannot use a niche inside it
+/// for the surrounding Option / Result: Kani 0.68 aborts on enums whose niche is the 128-bit tag of
+/// an Option<u128> (as in RuneEntryValue).  Consequence: a guard never drops its value (leak; fine
+/// under a verifier).
+pub struct AccessGuard<V: Slot> {
+  value: std::mem::MaybeUninit<V::Owned>,
+}
+
+impl<V: Slot> AccessGuard<V> {
+  fn new(value: V::Owned) -> Self {
+    Self { value: std::mem::MaybeUninit::new(value) }
+  }
+  pub fn value(&self) -> V::SelfType<'_> {
+    V::view(unsafe { self.value.assume_init_ref() })
+  }
+}
+
+/// SHIM for redb::Table: a finite map with room for CAP entries, held in fixed arrays (no heap:
+/// Vec-backed tables made the harnesses run out of time under CBMC).  Harnesses preload 0..2
+/// entries; an insert beyond CAP fails an assertion (never happens in the harnesses).
+pub const CAP: usize = 3;
+
+pub struct Table<'tx, K: Slot, V: Slot> {
+  used: [bool; CAP],
+  keys: [std::mem::MaybeUninit<K::Owned>; CAP],
+  vals: [std::mem::MaybeUninit<V::Owned>; CAP],
   pub inserts: usize,
   pub removes: usize,
   _tx: PhantomData<&'tx ()>,
 }
 
-impl<'tx, K: Slot + 'static, V: Slot + 'static> Table<'tx, K, V> {
+impl<'tx, K: Slot, V: Slot> Table<'tx, K, V> {
   pub fn new() -> Self {
-    Self { entries: Vec::new(), inserts: 0, removes: 0, _tx: PhantomData }
+    Self {
+      used: [false; CAP],
+      keys: [const { std::mem::MaybeUninit::uninit() }; CAP],
+      vals: [const { std::mem::MaybeUninit::uninit() }; CAP],
+      inserts: 0,
+      removes: 0,
+      _tx: PhantomData,
+    }
   }
 
   fn position(&self, k: &K::Owned) -> Option<usize> {
     let mut i = 0;
-    while i < self.entries.len() {
-      if self.entries[i].0 == *k {
+    while i < CAP {
+      if self.used[i] && unsafe { self.keys[i].assume_init_ref() } == k {
         return Some(i);
       }
       i += 1;
@@ -90,45 +142,94 @@ impl<'tx, K: Slot + 'static, V: Slot + 'static> Table<'tx, K, V> {
     None
   }
 
+  /// number of entries
+  pub fn len(&self) -> usize {
+    let mut n = 0;
+    let mut i = 0;
+    while i < CAP {
+      if self.used[i] {
+        n += 1;
+      }
+      i += 1;
+    }
+    n
+  }
+
+  pub fn is_empty(&self) -> bool {
+    self.len() == 0
+  }
+
+  /// harness-side: preload / overwrite without counting as a write of the code under contract
+  pub fn put(&mut self, k: K::Owned, v: V::Owned) {
+    let i = match self.position(&k) {
+      Some(i) => i,
+      None => {
+        let mut i = 0;
+        while i < CAP && self.used[i] {
+          i += 1;
+        }
+        assert!(i < CAP, "shim table capacity");
+        i
+      }
+    };
+    self.used[i] = true;
+    self.keys[i] = std::mem::MaybeUninit::new(k);
+    self.vals[i] = std::mem::MaybeUninit::new(v);
+  }
+
   pub fn peek(&self, k: &K::Owned) -> Option<&V::Owned> {
     match self.position(k) {
-      Some(i) => Some(&self.entries[i].1),
+      Some(i) => Some(unsafe { self.vals[i].assume_init_ref() }),
       None => None,
     }
   }
 
-  pub fn get<'a>(&self, key: impl Borrow<K::SelfType<'a>>) -> Result<Option<AccessGuard<V>>, redb::StorageError> {
+  pub fn get<'a>(&self, key: impl Borrow<K::SelfType<'a>>) -> Result<Option<AccessGuard<V>>, TableError>
+  where
+    K: 'a,
+  {
     let k = K::own(key.borrow());
-    Ok(self.peek(&k).map(|v| AccessGuard { value: v.clone() }))
+    Ok(match self.peek(&k) {
+      Some(v) => Some(AccessGuard::new(v.clone())),
+      None => None,
+    })
   }
 
   pub fn insert<'k, 'v>(
     &mut self,
     key: impl Borrow<K::SelfType<'k>>,
     value: impl Borrow<V::SelfType<'v>>,
-  ) -> Result<Option<AccessGuard<V>>, redb::StorageError> {
+  ) -> Result<Option<AccessGuard<V>>, TableError>
+  where
+    K: 'k,
+    V: 'v,
+  {
     let k = K::own(key.borrow());
     let v = V::own(value.borrow());
     self.inserts += 1;
     match self.position(&k) {
       Some(i) => {
-        let old = std::mem::replace(&mut self.entries[i].1, v);
+        let old = std::mem::replace(&mut self.vals[i], std::mem::MaybeUninit::new(v));
         Ok(Some(AccessGuard { value: old }))
       }
       None => {
-        self.entries.push((k, v));
+        self.put(k, v);
         Ok(None)
       }
     }
   }
 
-  pub fn remove<'a>(&mut self, key: impl Borrow<K::SelfType<'a>>) -> Result<Option<AccessGuard<V>>, redb::StorageError> {
+  pub fn remove<'a>(&mut self, key: impl Borrow<K::SelfType<'a>>) -> Result<Option<AccessGuard<V>>, TableError>
+  where
+    K: 'a,
+  {
     let k = K::own(key.borrow());
     self.removes += 1;
     match self.position(&k) {
       Some(i) => {
-        let (_, v) = self.entries.remove(i);
-        Ok(Some(AccessGuard { value: v }))
+        self.used[i] = false;
+        let old = std::mem::replace(&mut self.vals[i], std::mem::MaybeUninit::uninit());
+        Ok(Some(AccessGuard { value: old }))
       }
       None => Ok(None),
     }
@@ -218,12 +319,73 @@ impl<'a, K, V> IntoIterator for &'a HashMap<K, V> {
   }
 }
 
-pub mod mpsc {
-  use std::cell::RefCell;
+/// SHIM for std::collections::HashSet (Settings::hidden): a list without duplicates
+#[derive(Clone, Debug, Default)]
+pub struct HashSet<T> {
+  pub items: Vec<T>,
+}
 
-  /// SHIM for tokio::sync::mpsc::Sender: records what was sent, in order
+impl<T: PartialEq> HashSet<T> {
+  pub fn new() -> Self {
+    Self { items: Vec::new() }
+  }
+  pub fn insert(&mut self, v: T) -> bool {
+    if self.contains(&v) {
+      false
+    } else {
+      self.items.push(v);
+      true
+    }
+  }
+  pub fn contains(&self, v: &T) -> bool {
+    let mut i = 0;
+    while i < self.items.len() {
+      if self.items[i] == *v {
+        return true;
+      }
+      i += 1;
+    }
+    false
+  }
+  pub fn len(&self) -> usize {
+    self.items.len()
+  }
+}
+
+impl<T: PartialEq> PartialEq for HashSet<T> {
+  fn eq(&self, other: &Self) -> bool {
+    self.items.len() == other.items.len() && self.items.iter().all(|x| other.contains(x))
+  }
+}
+
+impl<T: PartialEq> FromIterator<T> for HashSet<T> {
+  fn from_iter<I: IntoIterator<Item = T>>(iter: I) -> Self {
+    let mut s = Self::new();
+    for x in iter {
+      s.insert(x);
+    }
+    s
+  }
+}
+
+impl<'a, T> IntoIterator for &'a HashSet<T> {
+  type Item = &'a T;
+  type IntoIter = std::slice::Iter<'a, T>;
+  fn into_iter(self) -> Self::IntoIter {
+    self.items.iter()
+  }
+}
+
+pub mod mpsc {
+  use std::cell::Cell;
+
+  /// SHIM for tokio::sync::mpsc::Sender: counts what was sent.  The payload is forgotten, not
+  /// stored: Kani 0.68 aborts (internal compiler error in codegen_get_discriminant) on any read of the
+  /// discriminant of ord's `Event` enum - its niche lives in a Vec capacity field - and that includes
+  /// the drop glue of a stored event, so event CONTENTS cannot be inspected by a harness.
   pub struct Sender<T> {
-    pub sent: RefCell<Vec<T>>,
+    pub sent: Cell<usize>,
+    _t: std::marker::PhantomData<T>,
   }
 
   #[derive(Debug)]
@@ -239,10 +401,11 @@ pub mod mpsc {
 
   impl<T> Sender<T> {
     pub fn new() -> Self {
-      Self { sent: RefCell::new(Vec::new()) }
+      Self { sent: Cell::new(0), _t: std::marker::PhantomData }
     }
     pub fn blocking_send(&self, value: T) -> Result<(), SendError> {
-      self.sent.borrow_mut().push(value);
+      self.sent.set(self.sent.get() + 1);
+      std::mem::forget(value);
       Ok(())
     }
   }
